@@ -932,3 +932,44 @@ impl BatchSemaphore {
         &self.signature
     }
 }
+
+/// Read-only views for the out-of-tree verification harnesses.
+#[cfg(feature = "verif-hooks")]
+impl BatchSemaphore {
+    /// `(number of queued waiters, closed)`
+    pub fn verif_queue(&self) -> (usize, bool) {
+        let state = self.state.borrow();
+        (state.waiters.len(), state.closed)
+    }
+
+    /// `(num_permits, current poller, is_queued, has_permits)` of the `i`-th queued waiter.
+    pub fn verif_waiter(&self, i: usize) -> Option<(usize, TaskId, bool, bool)> {
+        let state = self.state.borrow();
+        state.waiters.get(i).map(|w| {
+            (
+                w.num_permits,
+                w.task_id(),
+                w.is_queued.load(Ordering::SeqCst),
+                w.has_permits.load(Ordering::SeqCst),
+            )
+        })
+    }
+
+    pub fn verif_fairness(&self) -> Fairness {
+        self.fairness
+    }
+}
+
+#[cfg(feature = "verif-hooks")]
+impl Acquire<'_> {
+    /// `(num_permits, current poller, is_queued, has_permits, completed)`
+    pub fn verif_flags(&self) -> (usize, TaskId, bool, bool, bool) {
+        (
+            self.waiter.num_permits,
+            self.waiter.task_id(),
+            self.waiter.is_queued.load(Ordering::SeqCst),
+            self.waiter.has_permits.load(Ordering::SeqCst),
+            self.completed,
+        )
+    }
+}
